@@ -163,7 +163,7 @@ func (w *World) rulesV4ScoreRest(m *scoreModel, modFn *types.Func, add func(ok b
 			if err != nil {
 				failed = true
 				if pe, ok := err.(*panicked); ok {
-					add(false, "R04.nlm", "Score.key["+key+"]", s, fmt.Sprintf("for MacroVector %s the next-lower computation panics: %s (at %s) — a guard lets a lookup leave the table", key, pe.msg, p.posAt(pe.pos)))
+					add(false, "R04.dom", "Score.key["+key+"]", s, fmt.Sprintf("for MacroVector %s the next-lower computation panics: %s (at %s) — a guard lets a lookup leave the table", key, pe.msg, p.posAt(pe.pos)))
 				} else {
 					add(false, "R04.nlm", "Score.prefix", s, "cannot evaluate the loop-free prefix (undecided): "+err.Error())
 					undecidedPrefix = true
@@ -188,6 +188,7 @@ func (w *World) rulesV4ScoreRest(m *scoreModel, modFn *types.Func, add func(ok b
 	if len(entry) != len(keys) {
 		return
 	}
+	add(true, "R04.dom", "Score.lookups", fd, fmt.Sprintf("for all %d MacroVectors every lookup performed while computing the next-lower MacroVectors stays inside the table (no panic, no spurious NaN)", len(keys)))
 	m.entry, m.keys, m.table = entry, keys, tbl
 	// locals at loop entry, by name
 	byName := map[string]types.Object{}
